@@ -245,12 +245,13 @@ def run(facts, res):
                           "object reference: the reference to such an object is decoded as something else and the object disappears from the document" % pfx, gi.loc())
         # generated identifiers: digest of an injective encoding of the path
         n_gen = 0
-        for bi, t in gi.calls():
+        from ..common import members_of as _mog
+        for gim, bi, t in [(m_, bi_, t_) for m_ in _mog(facts, gi) for bi_, t_ in m_.calls()]:
             if t.callee is None or t.callee.target() != "utils::digest_string":
                 continue
             n_gen += 1
-            a = arg_term(gi, t, 0, 16)
-            joins = [x for x in walk(a) if x[0] == "call" and callee_name(x) == "join"]
+            a = arg_term(gim, t, 0, 16)
+            joins = [x for x in walk(a) if x[0] == "call" and callee_name(x) in ("join", "concat")]
             inj = True
             why = ""
             for j in joins:
@@ -258,7 +259,7 @@ def run(facts, res):
                 mapped = any(x[0] == "call" and callee_name(x) in ("map", "collect") for x in walk(comp))
                 if not mapped:
                     inj = False
-                    sep = [y[2] for y in walk(j[2][1]) if y[0] == "const"] if len(j[2]) > 1 else []
+                    sep = [y[2] for y in walk(j[2][1]) if y[0] == "const"] if len(j[2]) > 1 else ([""] if callee_name(j) == "concat" else [])
                     why = "plain join of the path components with separator %r" % (sep[0] if sep else "?")
             if not joins and not any(x[0] == "call" and callee_name(x) in ("to_string", "to_vec", "to_value") and "serde_json" in ((x[4].path if x[4] else "") or "") for x in walk(a)):
                 inj, why = False, "unrecognised path encoding"
@@ -314,42 +315,92 @@ def run(facts, res):
             from ..flows import flow_of
             from ..conds import capture_term
             n_rec = 0
-            for cb in members_of(facts, flb):
-                if cb.kind != "closure" or cb.argc < 2 or not cb.local_ty(2).startswith("("):
-                    continue            # the per-field closure receives (key, value) pairs
-                fl_ = flow_of(cb)
-                key_locals = set()
-                for blk in cb.blocks:
-                    for st in blk.stmts:
-                        if st.kind == "assign" and not st.place.proj:
+            mem = members_of(facts, flb)
+            mem_paths = {m_.path for m_ in mem}
+
+            def key_locals(mb):
+                """locals holding the key of an object entry: field 0 of a (key, value) pair - the tuple parameter of a closure
+                mapped over the object, or the payload of next() of an iteration over a serde_json Map"""
+                out_ = set()
+                pair_locals = set()
+                if mb.kind == "closure" and mb.argc >= 2 and mb.local_ty(2).startswith("("):
+                    pair_locals.add(2)
+                du_ = du_of(mb)
+                for bi_, t_ in mb.calls():
+                    if t_.callee is not None and t_.callee.name == "next" and "serde_json::map::" in ((t_.callee.self_ty or "") + (t_.callee.full or "")) and t_.dest is not None:
+                        pair_locals.add(t_.dest.local)
+                # locals copied from the pair (`_p = ((_n as Some).0)`) and then field 0 of them
+                changed_ = True
+                while changed_:
+                    changed_ = False
+                    for blk in mb.blocks:
+                        for st in blk.stmts:
+                            if st.kind != "assign" or st.place.proj:
+                                continue
                             pl = st.rv.place() if st.rv.kind in ("ref", "rawptr") else (st.rv.operands()[0].place if st.rv.kind == "use" and st.rv.operands() else None)
-                            if pl is not None and pl.local == 2 and any(p_["k"] == "field" and p_["i"] == 0 for p_ in pl.proj):
-                                key_locals.add(st.place.local)
+                            if pl is None or pl.local not in pair_locals:
+                                continue
+                            flds = [p_ for p_ in pl.proj if p_["k"] == "field"]
+                            tup = [p_ for p_ in flds if p_.get("of", "") == "" or not str(p_.get("of", "")).endswith("Some")]
+                            if tup and tup[-1]["i"] == 0 and mb.local_ty(st.place.local).replace("&", "").strip().startswith(("std::string::String", "str")):
+                                if st.place.local not in out_:
+                                    out_.add(st.place.local)
+                                    changed_ = True
+                            elif not tup or mb.local_ty(st.place.local).startswith("("):
+                                if st.place.local not in pair_locals:
+                                    pair_locals.add(st.place.local)
+                                    changed_ = True
+                return out_
+            _memo = {}
+
+            def prov(mb, local, depth=0):
+                k_ = (mb.path, local)
+                if k_ in _memo:
+                    return _memo[k_]
+                _memo[k_] = set()
+                out_ = set()
+                fl_ = flow_of(mb)
+                kl = key_locals(mb)
+                for n_ in fl_.local_sources(local):
+                    if n_[0] == "call":
+                        c_ = mb.blocks[n_[1]].term.callee
+                        if c_ is not None and c_.name == "generate_identifier":
+                            out_.add("id")
+                    elif n_[0] == "l":
+                        if n_[1] in kl:
+                            out_.add("key")
+                        if 1 <= n_[1] <= mb.argc and mb.kind != "closure":
+                            if mb.path == flb.path:
+                                if n_[1] == 3:
+                                    out_.add("in")
+                            elif depth < 3:
+                                for cs in cg_of(facts).callers_of(mb.path):
+                                    if cs.body.path in mem_paths and n_[1] - 1 < len(cs.term.args) and cs.term.args[n_[1] - 1].place is not None:
+                                        out_ |= prov(cs.body, cs.term.args[n_[1] - 1].place.local, depth + 1)
+                    elif n_[0] == "pfield" and n_[1] == 1 and mb.kind == "closure" and str(n_[2]).isdigit() and depth < 3:
+                        ct = capture_term(mb, int(n_[2]), facts)
+                        pb_ = facts.body(mb.direct_parent or mb.parent)
+                        x_ = ct
+                        while x_ is not None and x_[0] in ("ref", "deref", "cast"):
+                            x_ = x_[1]
+                        if x_ is not None and pb_ is not None:
+                            if x_[0] == "var":
+                                out_ |= prov(pb_, x_[1], depth + 1)
+                            elif x_[0] == "param" and pb_.path == flb.path and x_[1] == 3:
+                                out_.add("in")
+                            elif x_[0] == "param" and pb_.kind != "closure":
+                                out_ |= prov(pb_, x_[1], depth + 1)
+                _memo[k_] = out_
+                return out_
+            for cb in mem:
                 for bi, t in cb.calls():
-                    if t.callee is None or t.callee.target() != flb.path or len(t.args) < 3:
+                    if t.callee is None or t.callee.target() != flb.path or len(t.args) < 3 or t.args[2].place is None:
                         continue
+                    pv = prov(cb, t.args[2].place.local)
+                    if pv <= {"in"}:
+                        continue            # the incoming path handed on unchanged (elements of an array share their owner's path)
                     n_rec += 1
-                    src = fl_.operand_sources(t.args[2])
-                    has_key = any(n_[0] == "l" and n_[1] in key_locals for n_ in src)
-                    # the captured path: in the parent it derives from the identifier just generated and the incoming path
-                    has_id = has_in = False
-                    for n_ in src:
-                        if n_[0] == "pfield" and n_[1] == 1:
-                            for i_ in ([int(n_[2])] if str(n_[2]).isdigit() else []):
-                                if True:
-                                    ct = capture_term(cb, i_, facts)
-                                    pb_ = facts.body(cb.direct_parent or cb.parent)
-                                    if ct is None or pb_ is None:
-                                        continue
-                                    x_ = ct
-                                    while x_[0] in ("ref", "deref", "cast"):
-                                        x_ = x_[1]
-                                    if x_[0] == "var":
-                                        ps = flow_of(pb_).local_sources(x_[1])
-                                        gen = {bb for bb in flow_of(pb_).call_blocks(ps) if pb_.blocks[bb].term.callee is not None and
-                                               pb_.blocks[bb].term.callee.name == "generate_identifier"}
-                                        has_id = has_id or bool(gen)
-                                        has_in = has_in or ("l", 3) in ps
+                    has_in, has_id, has_key = "in" in pv, "id" in pv, "key" in pv
                     ok_ = has_key and has_id and has_in
                     res.instance("U4", "flatten: the path handed to the recursion for a field value extends the incoming path (%s) by the object's identifier (%s) and the field key (%s)" % (
                         has_in, has_id, has_key), cb.loc(t.line))
@@ -361,7 +412,7 @@ def run(facts, res):
             res.floor("U4", "recursive descents of flatten into field values", n_rec, 1)
 
     pre = facts.const_str("constants::STRING_ESCAPE_PREFIX")
-    e1 = consts_of("utils::escape", {"to_string", "add"})
+    e1 = consts_of("utils::escape", {"to_string", "add", "new_display", "push_str", "from", "to_owned", "concat", "join"})
     e2 = consts_of("utils::unescape", {"strip_prefix"})
     e3 = consts_of("utils::unflatten", {"starts_with"})
     res.instance("U3", "escape prefix: escape %s / unescape %s / unflatten %s / constant %r" % (e1, e2, e3, pre), None)
